@@ -7,3 +7,22 @@ pub mod parse_oracle;
 pub mod rt_oracle;
 pub mod req_oracle;
 pub mod fuzzrun;
+
+/// Body shared by the `pbt_cNN` libFuzzer targets: `$f` is the check's `fuzz_one(&[u8]) -> Vec<Failure>`.
+/// A failure that is not an open known finding aborts the process (libFuzzer then writes the crash file).
+#[macro_export]
+macro_rules! pbt_fuzz_target {
+    ($f:path, $id:literal) => {
+        libfuzzer_sys::fuzz_target!(|data: &[u8]| {
+            static INIT: std::sync::Once = std::sync::Once::new();
+            INIT.call_once(|| kvh::engine::install_panic_hook());
+            let fails = $f(data);
+            if !fails.is_empty() {
+                for f in &fails {
+                    eprintln!("{} VIOLATION sig={} :: {}", $id, f.sig, f.detail.chars().take(600).collect::<String>());
+                }
+                std::process::abort();
+            }
+        });
+    };
+}
